@@ -154,8 +154,9 @@ func (r *basicResolver) ResolvePath(ctx context.Context, fpath path.ImmutablePat
 	c, remainder := fpath.RootCid(), fpath.Segments()[2:]
 	enterPathResolution(ctx, c)
 
-	// create a selector to traverse all path segments but only match the last
-	pathSelector := pathLeafSelector(remainder)
+	// create a selector to traverse and match all path segments, so that a
+	// missing link can be attributed to the segment that was not found
+	pathSelector := pathAllSelector(remainder)
 
 	nodes, c, _, err := r.resolveNodes(ctx, c, pathSelector)
 	if err != nil {
@@ -163,6 +164,10 @@ func (r *basicResolver) ResolvePath(ctx context.Context, fpath path.ImmutablePat
 	}
 	if len(nodes) < 1 {
 		return nil, nil, fmt.Errorf("path %v did not resolve to a node", fpath)
+	}
+	if len(nodes) < len(remainder)+1 {
+		// nodes holds the root and one node per resolved segment
+		return nil, nil, &ErrNoLink{Name: remainder[len(nodes)-1], Node: c}
 	}
 	setTerminalCid(ctx, c)
 	return nodes[len(nodes)-1], cidlink.Link{Cid: c}, nil
@@ -227,13 +232,6 @@ func (r *basicResolver) resolveNodes(ctx context.Context, c cid.Cid, sel ipld.No
 	}
 
 	return nodes, lastLink, depth, nil
-}
-
-func pathLeafSelector(path []string) ipld.Node {
-	ssb := builder.NewSelectorSpecBuilder(basicnode.Prototype.Any)
-	return pathSelector(path, ssb, func(p string, s builder.SelectorSpec) builder.SelectorSpec {
-		return ssb.ExploreFields(func(efsb builder.ExploreFieldsSpecBuilder) { efsb.Insert(p, s) })
-	})
 }
 
 func pathAllSelector(path []string) ipld.Node {
